@@ -16,7 +16,7 @@ NEEDS = ["harness", "cli"]
 RULE = ("random call sets (1-40 samples, 0-200 records, 1-3 contigs, phased/unphased, missing/multiallelic/monomorphic/"
         "multi-ALT/all-missing records, extra INFO/FORMAT fields) x random sample->population maps (1-4 populations, any "
         "subset, named/unnamed) observed at L1, L2 (vcf, vcf.gz, bcf, raw bcf) and through the binary; every 4th case has a "
-        "twin whose unselected columns are replaced by junk incl. haploid/triploid genotypes. Non-trivial: >=2 records, "
+        "twin whose unselected columns are replaced by junk incl. haploid/triploid genotypes. One C case per shard uses a record count at/around a power of two (255..8192). Non-trivial: >=2 records, "
         ">=1 counted record with non-zero ALT count, and (>=1 skipped record or >=2 populations). distinct = digest of "
         "(records' genotype codes, map).")
 ASSUMPTIONS = ["inputs are valid VCF 4.3 / BCF 2.2 produced by this project's encoders (self-tested against the repo fixtures)",
@@ -204,11 +204,24 @@ def run_level_C(S, seed, cases):
                       "expected_cells": [int(x) for x in exp.cells][:40]})
 
 
+BOUNDARY_RECORDS = [255, 256, 257, 511, 512, 513, 1023, 1024, 1025, 2047, 2048, 2049, 4095, 4096, 4097, 8192]
+
+
+def gen_boundary(seed, labels):
+    """Record counts at and around powers of two (block-wise processing would slip exactly there)."""
+    rng = rng_for(seed, "c01", *labels)
+    n = BOUNDARY_RECORDS[labels[-1] % len(BOUNDARY_RECORDS)]
+    cs = G.random_callset(rng, nsamples=rng.choice([1, 2, 3]), nrecords=n, p_missing=rng.choice([0.0, 0.05]), p_multi=0.0, extras=False)
+    smap = None if rng.random() < 0.5 else G.random_sample_map(rng, cs.samples)
+    return {"cs": cs, "map": smap, "twin": None, "container": rng.choice(E.CONTAINERS), "layout_seed": rng.randrange(1 << 30), "labels": labels,
+            "level": "C", "via": rng.choice(["stdin", "path"]), "samples_via": "arg", "threads": rng.choice([None, 2]), "boundary": True}
+
+
 def shard(S, p):
     seed = S.seed
     if "replay" in p:
         w = p["replay"]
-        case = gen(seed, w["labels"], w["level"])
+        case = gen_boundary(seed, w["labels"]) if "boundary" in w["labels"] else gen(seed, w["labels"], w["level"])
         if w["level"] == "C":
             run_level_C(S, seed, [case])
         else:
@@ -217,3 +230,7 @@ def shard(S, p):
     run_level_L(S, seed, [gen(seed, [p["name"], "L1", i], "L1") for i in range(p["l1"])], "L1")
     run_level_L(S, seed, [gen(seed, [p["name"], "L2", i], "L2") for i in range(p["l2"])], "L2")
     run_level_C(S, seed, [gen(seed, [p["name"], "C", i], "C") for i in range(p["c"])])
+    idx = int(p["name"][1:])
+    if idx < len(BOUNDARY_RECORDS):
+        run_level_C(S, seed, [gen_boundary(seed, [p["name"], "boundary", idx])])
+        S.count("C_boundary_record_counts")
